@@ -576,6 +576,12 @@ func (a *apiServer) JoinConsumerGroup(ctx context.Context, req *client.JoinConsu
 		return nil, status.Error(codes.InvalidArgument, "No streams provided")
 	}
 
+	// Consumer groups are authorized on the group id.
+	if e := a.ensureAuthorizationPermission(ctx, req.GroupId, "JoinConsumerGroup"); e != nil {
+		a.logger.Errorf("api: Failed to authorize call on resource: %v", e)
+		return nil, e
+	}
+
 	coordinator, epoch, status := a.metadata.JoinConsumerGroup(ctx, &proto.JoinConsumerGroupOp{
 		GroupId:    req.GroupId,
 		ConsumerId: req.ConsumerId,
@@ -611,6 +617,12 @@ func (a *apiServer) LeaveConsumerGroup(ctx context.Context, req *client.LeaveCon
 		return nil, status.Error(codes.InvalidArgument, "No consumerId provided")
 	}
 
+	// Consumer groups are authorized on the group id.
+	if e := a.ensureAuthorizationPermission(ctx, req.GroupId, "LeaveConsumerGroup"); e != nil {
+		a.logger.Errorf("api: Failed to authorize call on resource: %v", e)
+		return nil, e
+	}
+
 	status := a.metadata.LeaveConsumerGroup(ctx, &proto.LeaveConsumerGroupOp{
 		GroupId:    req.GroupId,
 		ConsumerId: req.ConsumerId,
@@ -638,6 +650,12 @@ func (a *apiServer) FetchConsumerGroupAssignments(ctx context.Context, req *clie
 	}
 	if req.ConsumerId == "" {
 		return nil, status.Error(codes.InvalidArgument, "No consumerId provided")
+	}
+
+	// Consumer groups are authorized on the group id.
+	if e := a.ensureAuthorizationPermission(ctx, req.GroupId, "FetchConsumerGroupAssignments"); e != nil {
+		a.logger.Errorf("api: Failed to authorize call on resource: %v", e)
+		return nil, e
 	}
 
 	assignments, epoch, err := a.metadata.GetConsumerGroupAssignments(
@@ -684,6 +702,12 @@ func (a *apiServer) ReportConsumerGroupCoordinator(ctx context.Context, req *cli
 	}
 	if req.Coordinator == "" {
 		return nil, status.Error(codes.InvalidArgument, "No coordinator provided")
+	}
+
+	// Consumer groups are authorized on the group id.
+	if e := a.ensureAuthorizationPermission(ctx, req.GroupId, "ReportConsumerGroupCoordinator"); e != nil {
+		a.logger.Errorf("api: Failed to authorize call on resource: %v", e)
+		return nil, e
 	}
 
 	status := a.metadata.ReportGroupCoordinator(ctx, &proto.ReportConsumerGroupCoordinatorOp{
